@@ -738,7 +738,7 @@ def r01_6(run):
     run.ob('R01.6', sp, sp.node, 'State.process returns at the first matching transition', ok, slot='first-match', message='State.process no longer first-match')
     th = run.idx.find_method(run.idx.cls('Transition', 'spaghetti'), 'handle')
     ok = any(isinstance(r, ast.Return) and dotted(r.value) == 'self.next_state' for r in walk_unit(th)) and \
-        any(isinstance(n, ast.Compare) and is_none(n.comparators[0]) and dotted(n.left) == 'state' for n in walk_unit(th))
+        any(isinstance(n, ast.Compare) and is_none(n.comparators[0]) and isinstance(n.left, ast.Name) and isinstance(n.ops[0], ast.Is) for n in walk_unit(th))
     run.ob('R01.6', th, th.node, 'a handler returning None moves to the transition\'s next state', ok, slot='handle-none', message='Transition.handle changed')
     # handlers of the three accumulate/start kinds return None (they never redirect the machine)
     for hn in ('_start_command', '_accumulate_response', '_accumulate_multi_response', '_broadcast_response'):
